@@ -1,9 +1,118 @@
-"""GenStart.v: what src/munged/lock.c asks the kernel for (open flags/mode, fcntl command and lock shape,
-modes accepted by the fstat check, no unlink on the failure path) — observed by running lock.c with the
-system calls interposed (probes/start_probe.c)."""
-import os
+"""GenStart.v:
+  * what src/munged/lock.c asks the kernel for (open flags/mode, fcntl command and lock shape, modes accepted by
+    the fstat check, no unlink on the failure path), the suffix _lock_create_name appends to the socket name and
+    the longest lock-file name it can produce — observed by running lock.c with the system calls interposed
+    (probes/start_probe.c);
+  * how sock_create (src/munged/munged.c) copies the configured socket name into sockaddr_un.sun_path —
+    TRANSLATED FROM THE SOURCE TEXT: the size argument of the strlcpy, the comparison operator and the bound of
+    the length test that follows it (`n = strlcpy (addr.sun_path, conf->socket_name, SIZE); if (n OP BOUND)
+    { log_err ...`).  SIZE and BOUND are evaluated by the probe with the same headers; OP becomes the Gallina
+    function sock_len_refuses.  StartPathProofs proves from these that an accepted name was copied whole."""
+import os, re, shutil, tempfile
+
+OPS = {">=": "(sock_len_bound <=? n)", ">": "(sock_len_bound <? n)", "==": "(n =? sock_len_bound)",
+       "<": "(n <? sock_len_bound)", "<=": "(n <=? sock_len_bound)", "!=": "negb (n =? sock_len_bound)"}
+
+
+def func_body(src, name):
+    m = re.search(r"^%s \(.*?\)\n\{(.*?)^\}" % re.escape(name), src, re.S | re.M)
+    if not m:
+        raise ValueError("function %s not found" % name)
+    return m.group(1)
+
+
+def balanced(text, i):
+    """text[i] == '(' -> index just past the matching ')'"""
+    depth = 0
+    for j in range(i, len(text)):
+        if text[j] == "(":
+            depth += 1
+        elif text[j] == ")":
+            depth -= 1
+            if depth == 0:
+                return j + 1
+    raise ValueError("unbalanced parentheses")
+
+
+def split_args(s):
+    out, depth, cur = [], 0, ""
+    for ch in s:
+        if ch == "," and depth == 0:
+            out.append(cur.strip())
+            cur = ""
+            continue
+        depth += ch == "("
+        depth -= ch == ")"
+        cur += ch
+    out.append(cur.strip())
+    return out
+
+
+def translate_sock_copy(msrc):
+    """-> (address variable, SIZE text, OP, BOUND text) of sock_create's copy + length test"""
+    body = re.sub(r"/\*.*?\*/", "", func_body(msrc, "sock_create"), flags=re.S)
+    m = re.search(r"struct\s+sockaddr_un\s+(\w+)\s*;", body)
+    if not m:
+        raise ValueError("sock_create: no `struct sockaddr_un <var>;`")
+    var = m.group(1)
+    copies = [c for c in re.finditer(r"(?:(\w+)\s*=\s*)?\b(strlcpy|strncpy|strcpy|memcpy|snprintf|strlcat|strncat|stpcpy|"
+                                     r"stpncpy|strcatf)\s*\(", body)
+              if body[c.end():balanced(body, c.end() - 1)].lstrip().startswith(var + ".sun_path")]
+    if len(copies) != 1 or copies[0].group(2) != "strlcpy" or not copies[0].group(1):
+        raise ValueError("sock_create: expected exactly one `n = strlcpy (%s.sun_path, ...)`, found %s"
+                         % (var, [c.group(0) for c in copies]))
+    c = copies[0]
+    nvar = c.group(1)
+    end = balanced(body, c.end() - 1)
+    args = split_args(body[c.end():end - 1])
+    if len(args) != 3 or args[0] != var + ".sun_path" or args[1] != "conf->socket_name":
+        raise ValueError("sock_create: strlcpy arguments are %s" % args)
+    rest = body[end:]
+    m = re.match(r"\s*;\s*if\s*\(", rest)
+    if not m:
+        raise ValueError("sock_create: the strlcpy is not followed by a length test")
+    cend = balanced(rest, m.end() - 1)
+    cond = rest[m.end():cend - 1].strip()
+    mm = re.match(r"%s\s*(>=|<=|==|!=|>|<)\s*(.+)$" % re.escape(nvar), cond, re.S)
+    if not mm:
+        raise ValueError("sock_create: cannot translate the length test `%s`" % cond)
+    bound = mm.group(2).strip()
+    if re.search(r"&&|\|\||\?", bound):
+        raise ValueError("sock_create: cannot translate the length test `%s`" % cond)
+    then = rest[cend:].lstrip()
+    if not re.match(r"\{?\s*log_err\s*\(", then):
+        raise ValueError("sock_create: the length test is not followed by log_err (exit)")
+    # nothing may touch the address between the test and the bind
+    tail = rest[cend:]
+    b = re.search(r"\bbind\s*\(", tail)
+    if not b:
+        raise ValueError("sock_create: no bind after the length test")
+    bargs = split_args(tail[b.end():balanced(tail, b.end() - 1) - 1])
+    if len(bargs) != 3 or not re.search(r"&\s*%s\b" % var, bargs[1]) or bargs[2].replace(" ", "") != "sizeof(%s)" % var:
+        raise ValueError("sock_create: bind arguments are %s" % bargs)
+    between = tail[:b.start()]
+    if re.search(r"\b%s\s*[.\[]|\b%s\s*[,)]" % (var, var), re.sub(r"sizeof\s*\(\s*%s\.sun_path\s*\)" % var, "", between)):
+        raise ValueError("sock_create: the socket address is used between the length test and the bind")
+    return var, args[2], mm.group(1), bound
+
+
 def gen(api):
     R = api.REPO
     extra = [os.path.join(R, "src/libcommon/str.c"), os.path.join(R, "src/libmissing/strlcpy.c"),
              os.path.join(R, "src/libmissing/strlcat.c")]
-    return api.write_gen("GenStart.v", api.run_probe("start_probe.c", extra_srcs=extra))
+    try:
+        var, size, op, bound = translate_sock_copy(open(os.path.join(R, "src/munged/munged.c")).read())
+    except (ValueError, OSError) as e:
+        raise api.GenError("start: " + str(e))
+    tmp = tempfile.mkdtemp(prefix="verif-startgen-")
+    try:
+        wrapper = os.path.join(tmp, "start_probe_w.c")
+        with open(wrapper, "w") as f:
+            f.write("#define SOCK_ADDR_VAR %s\n#define SOCK_COPY_SIZE_EXPR %s\n#define SOCK_LEN_BOUND_EXPR %s\n"
+                    '#include "%s"\n' % (var, size, bound, os.path.join(api.PROBES, "start_probe.c")))
+        out = api.run_probe(wrapper, extra_srcs=extra)
+    finally:
+        shutil.rmtree(tmp, ignore_errors=True)
+    out += ("(* the length test, translated from the text: `if (n %s %s)` exits *)\n"
+            "Definition sock_len_refuses (n : N) : bool := %s.\n" % (op, " ".join(bound.split()).replace("(*", "( *").replace("*)", "* )"), OPS[op]))
+    return api.write_gen("GenStart.v", out)
